@@ -198,3 +198,41 @@ grad_general = function(
   bindings=GB, props=('C08',))
 grad_general.locals = {'index_filter': IndexFilter, '_argnums': ArgItems}
 grad_general.dict_hint = IndexFilter
+
+# ---- scan: a carry that is not an array must be the SAME object after the body (reference semantics of the carry) ----------
+import z3 as _z3
+IT = 'flax/nnx/transforms/iteration.py'
+CarryLeaf = opaque('CarryLeaf', is_str=False)
+is_arr = UFn('is_jax_array', [CarryLeaf], BOOL, 'isinstance(x, jax.Array)')
+CarryLeaf.isinstance_hook = lambda ex, v, names: ex.call_value(is_arr, [v], {}).t if names == {'jax.Array'} else (_ for _ in ()).throw(OutsideSubset('isinstance ' + repr(names)))
+KeyPathT = opaque('KeyPath', is_str=False)
+check_carry_refs = function(
+  IT + '::_check_carry_same_references.<locals>.check_carry_same_references',
+  params=[('key_path', KeyPathT), ('arg', CarryLeaf), ('out', CarryLeaf)],
+  raises={'ValueError': '(not is_jax_array(arg) or not is_jax_array(out)) and arg != out'},
+  bindings={'jax.Array': TypeTag('jax.Array'), 'id': Handler('id', lambda ex, a, kw: 0, 'id() only feeds the error message'),
+            'jax.tree_util.keystr': Handler('keystr', lambda ex, a, kw: Lit(''), 'only feeds the error message')},
+  modifies=[], props=('C08',))
+
+# ---- _check_out_axes: an output can neither be broadcast (None) nor carried (StateAxes Carry) ------------------------------
+OutTree = opaque('OutAxesTree', is_str=False)
+KeyedLeaf = Union('KeyedOutAxis', [Ctor('KeyedOutAxis', [('key', KeyPathT), ('x', PrefixArg)], pytypes=('tuple',), tuple_like=True)])
+KeyedLeaves = SeqOf(KeyedLeaf)
+leaves_with_path = UFn('tree_leaves_with_path', [OutTree], KeyedLeaves, 'jax.tree_util.tree_leaves_with_path(out_axes, is_leaf=lambda x: x is None)')
+CARRY = GlobalVar('Carry', AxisV)
+LEAF = 'tree_leaves_with_path(out_axes)[i].x'
+BAD_MAP = "exists(Int, lambda j: 0 <= j and j < len(%s.m._axes) and j < len(%s.m._filters) and (%s.m._axes[j] is None or %s.m._axes[j] == Carry))"
+BAD_LEAF = f"(({LEAF}.p is None) if is_({LEAF}, 'PConst') else ({BAD_MAP % (LEAF, LEAF, LEAF, LEAF)}))"
+check_out_axes = function(
+  I + '::_check_out_axes', params=[('out_axes', OutTree)], free=[('Carry', AxisV)],
+  requires=['Carry is not None'],
+  raises={'ValueError': f"exists(Int, lambda i: 0 <= i and i < len(tree_leaves_with_path(out_axes)) and {BAD_LEAF})"},
+  invariants={
+    0: [f"forall(Int, lambda i: implies(0 <= i and i < _k, not {BAD_LEAF}))"],
+    1: ["forall(Int, lambda j: implies(0 <= j and j < _k, not (x.m._axes[j] is None or x.m._axes[j] == Carry)))"],
+  },
+  bindings={'jax.tree_util.tree_leaves_with_path': Handler('tree_leaves_with_path', lambda ex, a, kw: ex.call_value(leaves_with_path, [a[0]], {}), 'the (key path, leaf) pairs of the out_axes prefix tree, None counted as a leaf'),
+            'jax.tree_util.keystr': Handler('keystr', lambda ex, a, kw: Lit(''), 'only feeds the error message'),
+            'StateAxes': TypeTag('StateAxes'), 'Carry': CARRY,
+            'StateAxes.items': Handler('StateAxes.items', lambda ex, a, kw: ex.call_value(__import__('pyvc.methods', fromlist=['x']).GLOBAL_BINDINGS['zip'], [ex.getattr_(a[0], 'filters'), ex.getattr_(a[0], 'axes')], {}), 'zip(self.filters, self.axes) (source of StateAxes.items)')},
+  modifies=[], props=('C08',))
